@@ -161,14 +161,15 @@ func (r *WireReader) ReadByte() (byte, error) {
 }
 
 func (r *WireReader) UnreadByte() error {
-	if r.pos == 0 {
-		if r.seg == 0 {
+	seg, pos := r.seg, r.pos
+	for pos == 0 {
+		if seg == 0 {
 			return errors.New("encoding.WireReader.UnreadByte: negative position")
 		}
-		r.seg--
-		r.pos = len(r.wire[r.seg])
+		seg--
+		pos = len(r.wire[seg])
 	}
-	r.pos--
+	r.seg, r.pos = seg, pos-1
 	return nil
 }
 
